@@ -65,10 +65,10 @@ func (r *runner) tmpName(prefix string) string {
 }
 
 func (r *runner) stepBudget() time.Duration {
-	if r.timeout > 60*time.Second {
+	if r.timeout > 100*time.Second {
 		return 60 * time.Second
 	}
-	return 10 * time.Second
+	return 20 * time.Second
 }
 
 // exec runs one worker process.
